@@ -379,6 +379,16 @@ def _check_superposition(ctx: Ctx) -> None:
                       and isinstance(n.value, ast.Subscript) and isinstance(n.value.slice, ast.Tuple) and len(n.value.slice.elts) == 2
                       and isinstance(n.value.value, ast.Name)]
         gnames = {n.value.value.id for n in pick_nodes}
+        # ... or used directly as the receiver of the call: `grid[rx, tx].corrupt_data(signal[tx])`
+        direct = [n for n in ast.walk(fn.node) if isinstance(n, ast.Call) and isinstance(n.func, ast.Attribute) and n.func.attr == meth
+                  and isinstance(n.func.value, ast.Subscript) and isinstance(n.func.value.slice, ast.Tuple) and len(n.func.value.slice.elts) == 2
+                  and isinstance(n.func.value.value, ast.Name)]
+        gnames |= {n.func.value.value.id for n in direct}
+        if direct:
+            from ..astutil import stmts_in_order as _sio
+            holders = [s_ for s_ in _sio(fn) if not isinstance(s_, (ast.For, ast.While, ast.If, ast.With, ast.Try))
+                       and any(x in direct for x in ast.walk(s_))]
+            pick_nodes = pick_nodes + holders
         grid = None
         if len(gnames) != 1:
             ctx.error('C03.d: %s picks its link channels from %s (one grid variable expected; cannot tell)' % (construct, sorted(gnames)))
@@ -412,6 +422,15 @@ def _check_superposition(ctx: Ctx) -> None:
                     and norm(n.value.value) == (grid or '?') and isinstance(n.value.slice, ast.Tuple):
                 picks[n.targets[0].id + '@%d' % n.lineno] = tuple(norm(e) for e in n.value.slice.elts)  # type: ignore
         for n in ast.walk(fn.node):
+            if n in direct and norm(n.func.value.value) == grid:
+                rx, tx = (norm(e_) for e_ in n.func.value.slice.elts)
+                sig = n.args[0] if n.args else None
+                k = norm(sig.slice) if isinstance(sig, ast.Subscript) and norm(sig.value) == 'signal' else None
+                sites.append((n, rx, tx, k))
+                ctx.instance('C03.d', '%s:link[%s]' % (construct, tx))
+                if k != tx:
+                    problems.append('channel column %s is fed signal row %s' % (tx, k))
+                continue
             if isinstance(n, ast.Call) and isinstance(n.func, ast.Attribute) and n.func.attr == meth and isinstance(n.func.value, ast.Name):
                 # nearest preceding pick of that name
                 cands = [(int(k.split('@')[1]), v) for k, v in picks.items() if k.split('@')[0] == n.func.value.id and int(k.split('@')[1]) < n.lineno]
@@ -594,7 +613,14 @@ def _check_discretize(ctx: Ctx) -> None:
     uniq = [n for n in walk_no_nested(fn.node) if isinstance(n, ast.Call) and norm(n.func) == 'np.unique']
     if len(uniq) != 1:
         ctx.error('C03.f: delays are not obtained from a single np.unique call (cannot tell)')
-    u_ok = 'np.round(' in norm(uniq[0]) and 'astype(int)' in norm(uniq[0])
+    from ..astutil import expander as _expander_u
+    u_txt = norm(_expander_u(fn)(uniq[0]))          # a rounded-delay vector named first is looked through
+    rounded = any(k in u_txt for k in ('np.round(', 'np.rint(', 'np.around('))
+    to_int = 'astype(int' in u_txt or 'dtype=int' in u_txt
+    u_ok = rounded and to_int
+    if not u_ok and not (to_int or any(k in u_txt for k in ('np.floor(', 'np.ceil(', 'np.trunc(', '//'))):
+        ctx.error('C03.f: the delays handed to np.unique, `%s`, are neither rounded integers nor a recognisably wrong form (truncated / '
+                  'floored): cannot tell' % u_txt[:80])
     inv_names = set()
     for n in walk_no_nested(fn.node):
         if isinstance(n, ast.Assign) and isinstance(n.targets[0], ast.Tuple) and n.value in uniq:
